@@ -395,16 +395,20 @@ def analyzeCondition (sc : Scope) (c : Option (Ref Expr)) (msg : Msg) : Except P
       | some _ => .ok (some ⟨e.addError ⟨e.info.range, msg⟩, r.offset⟩)
       | none => .ok (some ⟨e, r.offset⟩)
 
+/-- the argument as it is analysed: a non-variable given for a reference parameter is flagged first -/
+def refArgExpr (a : Ref Expr) (p : VariableEntry) (name : List Char) (i : Nat) : Expr :=
+  let isVariable := match a.val with
+    | .var _ => true
+    | _ => false
+  if p.isRef && !isVariable then a.val.addError ⟨a.val.info.range, .ArgumentMustBeAVariable name (i + 1)⟩ else a.val
+
 def analyzeArgs (sc : Scope) (name : List Char) : List (Ref Expr) → List VariableEntry → Nat →
     Except Panic (List (Ref Expr))
   | [], _, _ => .ok []
   | args, [], _ => .ok args
   | a :: as, p :: ps, i =>
     let range := a.val.info.range
-    let isVariable := match a.val with
-      | .var _ => true
-      | _ => false
-    let a1 := if p.isRef && !isVariable then a.val.addError ⟨range, .ArgumentMustBeAVariable name (i + 1)⟩ else a.val
+    let a1 := refArgExpr a p name i
     match analyzeExpr sc a1 with
     | .error e => .error e
     | .ok (a2, argT) =>
